@@ -38,7 +38,7 @@ Hostile == {"01", "007", Big32, Big64, D20, D23, Z23, ZBig64, ZBig65}
 (* SemVer family: rich cores with poor pre-releases, plus a few fixed cores  *)
 (* with rich pre-release identifier lists.                                   *)
 SvIds == {"0", "1", "2", "10", "01", "alpha", "beta", "rc", "a", "A", "b", "B", "Alpha", "Beta", "RC", "-5", "a-b", "-",
-          "0a", "x", "123456789012345678", "alpha1", "1a"}
+          "0a", "x", "123456789012345678", "123456789012345679", "99999999999999999", "100000000000000000", "alpha1", "1a"}
 SvId2 == {"0", "1", "10", "alpha", "a", "A", "B", "-5", "x"}
 SvG(prefixes, fourth) ==
   [ S    |-> T(prefixes, "MAJ"),
